@@ -118,8 +118,6 @@ Proof.
   rewrite N.eqb_refl. exact IH.
 Qed.
 
-Definition cfg_ok (c : cfg) : Prop := c_nfip c = c_hostip c.
-
 Lemma lease_reply_opts c t m x b k :
   t <> RNak ->
   opt k (mk_reply c t m x b) = alookup k (lease_opts c b (match t with ROffer => 2 | RAck => 5 | RNak => 6 end)).
@@ -133,19 +131,32 @@ Lemma subnet_of_good c s0 m x s' t :
   addr_good c s0 (m_chaddr m) (getcid m) x s' ->
   let b := sess_captured (ss s0) (m_chaddr m) in
   let r := mk_reply c t m x b in
-  n_contains c b (r_yi r) = true /\
+  want_contains c b (r_yi r) = true /\
   obeqb (opt 3 r) (ipb (want_router c b)) = true /\
   obeqb (opt 6 r) (ipb (want_dns c b)) = true /\
-  obeqb (opt 1 r) (ipb (pmask (n_bits c b))) = true /\
+  obeqb (opt 1 r) (ipb (pmask (want_bits c b))) = true /\
   obeqb (opt 54 r) (ipb (c_hostip c)) = true /\
   obeqb (opt 51 r) (ipb 14400) = true /\
   r_xid r = m_xid m /\ r_chaddr r = m_chaddr m.
 Proof.
-  intros Hc Ht [[P _] _] b r. unfold r.
+  intros [Hok Hc] Ht [[P _] _] b r. unfold r.
   rewrite !lease_reply_opts by exact Ht.
-  split; [apply in_pool_contains; exact P|].
-  unfold cfg_ok in Hc. unfold want_router, want_dns, lease_opts, n_options, n_gw, n_dns, n_server, lease_time_opt.
-  destruct b; simpl; rewrite ?Hc; repeat split; apply beqb_refl.
+  change (r_yi (mk_reply c t m x b)) with x.
+  split; [rewrite <- (ok_contains c b x Hok); apply in_pool_contains; exact P|].
+  assert (E3 : alookup 3 (lease_opts c b (match t with ROffer => 2 | RAck => 5 | RNak => 6 end)) = Some (ipb (n_gw c b)))
+    by (unfold lease_opts, n_options; destruct b; reflexivity).
+  assert (E6 : alookup 6 (lease_opts c b (match t with ROffer => 2 | RAck => 5 | RNak => 6 end)) = Some (ipb (n_dns c b)))
+    by (unfold lease_opts, n_options; destruct b; reflexivity).
+  assert (E1 : alookup 1 (lease_opts c b (match t with ROffer => 2 | RAck => 5 | RNak => 6 end)) = Some (ipb (pmask (n_bits c b))))
+    by (unfold lease_opts, n_options; destruct b; reflexivity).
+  assert (E54 : alookup 54 (lease_opts c b (match t with ROffer => 2 | RAck => 5 | RNak => 6 end)) = Some (ipb (n_server c b)))
+    by (unfold lease_opts, n_options; destruct b; reflexivity).
+  assert (E51 : alookup 51 (lease_opts c b (match t with ROffer => 2 | RAck => 5 | RNak => 6 end)) = Some (ipb 14400))
+    by (unfold lease_opts, n_options; destruct b; reflexivity).
+  rewrite E3, E6, E1, E54, E51.
+  rewrite (ok_gw c b Hok), (ok_dns c b Hok), (ok_bits c b Hok), (ok_server c b Hok).
+  assert (W : (if b then c_nfip c else c_routerip c) = want_router c b) by (unfold want_router; destruct b; auto).
+  rewrite W. simpl. rewrite !beqb_refl. repeat split; reflexivity.
 Qed.
 
 (* ---------------------------------------------------------------- *)
@@ -312,28 +323,198 @@ Proof.
 Qed.
 
 Theorem no_ack_when_all : forall c h t m,
-  In t (trace c (init c) h) -> op_msg (t_op t) = Some m ->
+  sub_ok c -> In t (trace c (init c) h) -> op_msg (t_op t) = Some m ->
   c12_no_ack_when c (t_pre t) m (op_now (t_op t)) (t_reply t) = true.
 Proof.
-  intros c h t m Hin Hm. unfold c12_no_ack_when.
+  intros c h t m Hok Hin Hm. unfold c12_no_ack_when.
   destruct (t_reply t) as [r|] eqn:Hr; [|apply orb_true_r].
   destruct (is_ack r) eqn:Ha; [|apply orb_true_r]. simpl. rewrite orb_false_r. apply negb_true_iff.
   destruct (trace_reply c h t r Hin Hr) as [_ [_ G]].
   destruct (ack_of_good _ _ _ _ _ m G Hm Ha) as [x [Hx [[[P _] _] [[l0 [T [M St]]] [As Os]]]]].
   rewrite parse_tbl in T.
+  assert (Os' : other_server c m = false).
+  { unfold other_server. destruct (m_sid m) as [v|]; auto. rewrite (ok_server _ _ Hok) in Os.
+    destruct Os as [Os|Os]; subst v; [reflexivity|]. rewrite N.eqb_refl. apply andb_false_r. }
   unfold cannot_honour, lease_unknown, lease_expired, lease_mismatch, outside_subnet, client_net, sess_at.
-  rewrite Os, T, As, M, N.eqb_refl. rewrite (in_pool_contains _ _ _ P).
+  rewrite Os', T, As, M, N.eqb_refl. rewrite <- (ok_contains _ _ _ Hok). rewrite (in_pool_contains _ _ _ P).
   destruct St as [[S [X O]]|[S [I Ex]]]; rewrite S; simpl.
   - rewrite O. simpl. rewrite N.eqb_refl. reflexivity.
   - rewrite I, Ex. simpl. rewrite N.eqb_refl. reflexivity.
 Qed.
 
 (* ---------------------------------------------------------------- *)
-(* a stale lease file cannot change the configuration the theorems are about *)
-Theorem loaded_cfg_id : forall c hb nb, loaded_cfg c hb nb = c.
+(* a handler built on an existing lease file: whatever the file holds, the subnets in force are
+   those of the new configuration, parameter by parameter (kept only when equal, else rebuilt) *)
+Lemma sub_ok_wanted c : sub_ok (set_sub c (wanted c)).
+Proof. unfold sub_ok, set_sub, wanted. simpl. repeat split; reflexivity. Qed.
+
+Theorem loaded_sub_ok : forall file cB, sub_ok (loaded_cfg file cB).
 Proof.
-  intros c hb nb. unfold loaded_cfg.
-  destruct (_ && _) eqn:E; auto.
-  apply andb_true_iff in E as [E E4]. apply andb_true_iff in E as [E E3]. apply andb_true_iff in E as [E1 E2].
-  apply N.eqb_eq in E2, E4. subst. destruct c; reflexivity.
+  intros file cB. unfold loaded_cfg. destruct (sub_changed (wanted cB) file) eqn:E.
+  - apply sub_ok_wanted.
+  - unfold sub_changed in E. apply negb_false_iff in E.
+    repeat (apply andb_true_iff in E; let H := fresh "E" in destruct E as [E H]; apply N.eqb_eq in H).
+    apply N.eqb_eq in E. unfold wanted in *. simpl in *.
+    unfold sub_ok, set_sub. simpl. repeat split; congruence.
+Qed.
+
+Theorem loaded_cfg_ok : forall file cB, c_nfip cB = c_hostip cB -> cfg_ok (loaded_cfg file cB).
+Proof. intros file cB H. split; [apply loaded_sub_ok|]. unfold loaded_cfg, set_sub. simpl. exact H. Qed.
+
+(* when the file's subnets are not kept, the handler starts from scratch *)
+Theorem loaded_reset : forall file cB,
+  sub_changed (wanted cB) file = true -> loaded_cfg file cB = set_sub cB (wanted cB).
+Proof. intros file cB H. unfold loaded_cfg. rewrite H. reflexivity. Qed.
+
+Theorem restart_reset : forall file cB,
+  sub_changed (wanted cB) file = true ->
+  loaded_cfg file cB = set_sub cB (wanted cB) /\ forall saved, restart_state file cB saved = init (loaded_cfg file cB).
+Proof.
+  intros file cB H. split; [exact (loaded_reset file cB H)|].
+  intros saved. unfold restart_state. rewrite H. reflexivity.
+Qed.
+
+(* ---------------------------------------------------------------- *)
+(* The configuration carried by OFFER/ACK from ANY state (no invariant needed): in particular from
+   the table a restarted handler restores from its lease file. *)
+
+Lemma discover_shape c ch now s0 m s' r :
+  handleDiscover c ch now s0 m = (s', Some r) ->
+  exists x, r = mk_reply c ROffer m x (sess_captured (ss s0) (m_chaddr m)).
+Proof.
+  unfold handleDiscover.
+  destruct (findOrCreate c s0 (getcid m) (m_chaddr m)) as [s1 l] eqn:F.
+  apply foc_spec in F as [_ [_ [_ [_ [_ [Hn _]]]]]].
+  destruct (reset_props now l m) as [_ [_ [Rn _]]].
+  set (l0 := discover_reset now l m) in *.
+  set (l1 := match l_offer l0 with Some x => if taken s1 l0 x then set_offer l0 None else l0 | None => l0 end).
+  assert (Pn : l_net2 l1 = sess_captured (ss s0) (m_chaddr m)).
+  { unfold l1. destruct (l_offer l0) as [x|]; [destruct (taken s1 l0 x)|]; simpl; congruence. }
+  destruct (l_offer l1) as [x|].
+  - intros H. apply pair_equal_spec in H as [_ H]. inversion H. exists x. simpl. rewrite Pn. reflexivity.
+  - destruct (allocIPOffer c ch (put s1 l1) l1 (m_req m)) as [[x|] s2].
+    + intros H. apply pair_equal_spec in H as [_ H]. inversion H. exists x. simpl. rewrite Pn. reflexivity.
+    + intros H. apply pair_equal_spec in H as [_ H]. discriminate.
+Qed.
+
+Lemma do_ack_shape c now m s l s' r :
+  do_ack c now m s l = (s', Some r) -> exists x, r = mk_reply c RAck m x (l_net2 l).
+Proof.
+  unfold do_ack. destruct (l_state l); intros H; apply pair_equal_spec in H as [_ H]; inversion H;
+    eexists; reflexivity.
+Qed.
+
+Lemma request_shape c now s0 m s' r :
+  handleRequest c now s0 m = (s', Some r) ->
+  r = mk_reply c RNak m 0 (sess_captured (ss s0) (m_chaddr m)) \/
+  exists x, r = mk_reply c RAck m x (sess_captured (ss s0) (m_chaddr m)).
+Proof.
+  unfold handleRequest.
+  destruct (classify m) as [oper req].
+  destruct (req =? 0); [intros H; apply pair_equal_spec in H as [_ H]; discriminate|].
+  destruct (findOrCreate c s0 (getcid m) (m_chaddr m)) as [s1 l] eqn:F.
+  apply foc_spec in F as [_ [_ [_ [_ [_ [Hn _]]]]]].
+  assert (A : forall s2 s'' , do_ack c now m s2 l = (s'', Some r) ->
+              r = mk_reply c RNak m 0 (sess_captured (ss s0) (m_chaddr m)) \/
+              exists x, r = mk_reply c RAck m x (sess_captured (ss s0) (m_chaddr m))).
+  { intros s2 s'' H. right. apply do_ack_shape in H as [x H]. exists x. rewrite <- Hn. exact H. }
+  assert (K : forall (s2 : dstate), (s2, Some (mk_reply c RNak m 0 (sess_captured (ss s0) (m_chaddr m)))) = (s', Some r) ->
+              r = mk_reply c RNak m 0 (sess_captured (ss s0) (m_chaddr m)) \/
+              exists x, r = mk_reply c RAck m x (sess_captured (ss s0) (m_chaddr m))).
+  { intros s2 H. apply pair_equal_spec in H as [_ H]. inversion H. left. reflexivity. }
+  destruct oper;
+    repeat match goal with
+           | |- context [if ?b then _ else _] => destruct b
+           end;
+    intros H; try (apply (K _ H)); try (apply (A _ _ H));
+    try (apply pair_equal_spec in H as [_ H]; discriminate).
+Qed.
+
+Lemma decline_any c s0 m : snd (handleDecline c s0 m) = None.
+Proof.
+  unfold handleDecline. destruct (findOrCreate c s0 (getcid m) (m_chaddr m)) as [s1 l].
+  destruct (negb _); simpl; auto. destruct (_ || _); reflexivity.
+Qed.
+
+Lemma step_shape c ch s o s' r :
+  step c ch s o = (s', Some r) ->
+  exists m, op_msg o = Some m /\
+    let b := sess_captured (sess_at c s m) (m_chaddr m) in
+    (r = mk_reply c RNak m 0 b \/ exists t x, t <> RNak /\ r = mk_reply c t m x b).
+Proof.
+  destruct o as [now m|now m|m|m|x|x|now|k tt]; simpl; intros H.
+  - exists m. split; auto. apply discover_shape in H as [x H]. right. exists ROffer, x. split; [discriminate|exact H].
+  - exists m. split; auto. apply request_shape in H as [H|[x H]]; [left; exact H|].
+    right. exists RAck, x. split; [discriminate|exact H].
+  - pose proof (decline_any c (parse_effect c s m) m) as D. rewrite H in D. discriminate.
+  - unfold handleRelease in H. destruct (findOrCreate _ _ _ _). apply pair_equal_spec in H as [_ H]. discriminate.
+  - apply pair_equal_spec in H as [_ H]. discriminate.
+  - apply pair_equal_spec in H as [_ H]. discriminate.
+  - apply pair_equal_spec in H as [_ H]. discriminate.
+  - apply pair_equal_spec in H as [_ H]. discriminate.
+Qed.
+
+Lemma config_of_reply c t m x b :
+  cfg_ok c -> t <> RNak ->
+  let r := mk_reply c t m x b in
+  obeqb (opt 3 r) (ipb (want_router c b)) = true /\
+  obeqb (opt 6 r) (ipb (want_dns c b)) = true /\
+  obeqb (opt 1 r) (ipb (pmask (want_bits c b))) = true /\
+  obeqb (opt 54 r) (ipb (c_hostip c)) = true /\
+  obeqb (opt 51 r) (ipb 14400) = true /\
+  r_xid r = m_xid m /\ r_chaddr r = m_chaddr m.
+Proof.
+  intros [Hok Hc] Ht r. unfold r.
+  rewrite !lease_reply_opts by exact Ht.
+  assert (E3 : alookup 3 (lease_opts c b (match t with ROffer => 2 | RAck => 5 | RNak => 6 end)) = Some (ipb (n_gw c b)))
+    by (unfold lease_opts, n_options; destruct b; reflexivity).
+  assert (E6 : alookup 6 (lease_opts c b (match t with ROffer => 2 | RAck => 5 | RNak => 6 end)) = Some (ipb (n_dns c b)))
+    by (unfold lease_opts, n_options; destruct b; reflexivity).
+  assert (E1 : alookup 1 (lease_opts c b (match t with ROffer => 2 | RAck => 5 | RNak => 6 end)) = Some (ipb (pmask (n_bits c b))))
+    by (unfold lease_opts, n_options; destruct b; reflexivity).
+  assert (E54 : alookup 54 (lease_opts c b (match t with ROffer => 2 | RAck => 5 | RNak => 6 end)) = Some (ipb (n_server c b)))
+    by (unfold lease_opts, n_options; destruct b; reflexivity).
+  assert (E51 : alookup 51 (lease_opts c b (match t with ROffer => 2 | RAck => 5 | RNak => 6 end)) = Some (ipb 14400))
+    by (unfold lease_opts, n_options; destruct b; reflexivity).
+  rewrite E3, E6, E1, E54, E51.
+  rewrite (ok_gw c b Hok), (ok_dns c b Hok), (ok_bits c b Hok), (ok_server c b Hok).
+  assert (W : (if b then c_nfip c else c_routerip c) = want_router c b) by (unfold want_router; destruct b; auto).
+  rewrite W. simpl. rewrite !beqb_refl. repeat split; reflexivity.
+Qed.
+
+Lemma trace_in_step c h : forall s t, In t (trace c s h) ->
+  step c (t_ch t) (t_pre t) (t_op t) = (t_post t, t_reply t).
+Proof.
+  induction h as [|[ch o] r IH]; intros s t Hin; [destruct Hin|].
+  simpl in Hin. destruct (step c ch s o) as [s1 rp] eqn:E. destruct Hin as [Hin|Hin].
+  - subst t. simpl. exact E.
+  - apply (IH s1). exact Hin.
+Qed.
+
+(* from ANY start state s (e.g. the table restored from a lease file), along every history *)
+Theorem reply_config_any_state : forall c s h t m r,
+  cfg_ok c -> In t (trace c s h) -> op_msg (t_op t) = Some m -> t_reply t = Some r ->
+  c12_config c (t_pre t) m r = true /\ c12_mask_first r = true.
+Proof.
+  intros c s h t m r Hc Hin Hm Hr. pose proof (trace_in_step c h s t Hin) as E. rewrite Hr in E.
+  apply step_shape in E as [m' [Hm' G]]. rewrite Hm in Hm'. inversion Hm'; subst m'. cbv zeta in G.
+  destruct G as [G|[t0 [x [Ht G]]]]; subst r.
+  - split; reflexivity.
+  - split; [|apply mask_first_reply; exact Ht].
+    unfold c12_config, client_net.
+    destruct (config_of_reply c t0 m x (sess_captured (sess_at c (t_pre t) m) (m_chaddr m)) Hc Ht)
+      as [G2 [G3 [G4 [G5 [G6 [G7 G8]]]]]].
+    cbv zeta in *. rewrite G2, G3, G4, G5, G6, G7, G8, !N.eqb_refl. apply orb_true_r.
+Qed.
+
+(* the restarted handler: whatever the file held, whatever was restored *)
+Theorem restart_reply_config : forall file cB saved h t m r,
+  c_nfip cB = c_hostip cB ->
+  let cL := loaded_cfg file cB in
+  In t (trace cL (restart_state file cB saved) h) -> op_msg (t_op t) = Some m -> t_reply t = Some r ->
+  c12_config cL (t_pre t) m r = true /\ c12_mask_first r = true.
+Proof.
+  intros file cB saved h t m r Hn cL Hin Hm Hr.
+  apply (reply_config_any_state cL (restart_state file cB saved) h t m r); auto.
+  apply loaded_cfg_ok. exact Hn.
 Qed.
